@@ -172,6 +172,12 @@ impl Store {
             }
         }
 
+        // Remove the backup of a previous rebuild (a directory cannot be
+        // renamed over a non-empty directory)
+        if indexes_bak_path.exists() {
+            fs::remove_dir_all(&indexes_bak_path)?;
+        }
+
         // Backup existing data (moving out of the way)
         fs::rename(&events_path, &events_bak_path)?;
         fs::rename(&indexes_path, &indexes_bak_path)?;
